@@ -1,6 +1,36 @@
 (* C04 — no transaction sequence halts the chain; updates are always valid for CometBFT. *)
 From stdpp Require Import gmap.
-Require Import Model.Base Model.State Model.Staking Model.Slashing Model.Poa proofs.L1More.
+Require Import Model.Base Model.State Model.Staking Model.Slashing Model.Poa Model.App.
+Require Import proofs.Inv proofs.InvPres proofs.InvMsgs proofs.InvHistory proofs.L1More.
+
+(* after every block of every history from every (non-negative) genesis — any number of blocks, any in-block
+   order of any messages of the modelled alphabet, any downtime pattern, any time steps — the chain invariant
+   holds: one index entry per non-jailed validator at its token power, distinct consensus keys, every member of
+   the last validator set bonded, pending identities pairwise distinct and disjoint from the validators' *)
+Theorem C04_invariant_of_every_reachable_state : forall g bs,
+  wf_genesis g -> CI (w_chain (run_world (init_world g) bs)).
+Proof. exact reachable_CI. Qed.
+
+(* hence in the next block, whatever it contains, x/staking's EndBlocker never panics on a missing validator
+   record (1) or a bad state transition (2), and CometBFT never refuses the returned updates for a duplicate
+   consensus key (1) or a negative power (2) *)
+Theorem C04_next_block_safe : forall g bs b,
+  wf_genesis g ->
+  let w := run_world (init_world g) bs in
+  w_halted w = None ->
+  let w' := fst (run_block w b) in
+  w_halted w' <> Some (HEndBlock 1) /\ w_halted w' <> Some (HEndBlock 2) /\
+  w_halted w' <> Some (HComet 1) /\ w_halted w' <> Some (HComet 2).
+Proof. intros g bs b Hg w Hh. apply block_safe; [apply reachable_CI; exact Hg|exact Hh]. Qed.
+
+(* the EndBlocker's own contract, for any store satisfying the invariant and index sets of any size *)
+Theorem C04_endblocker_contract : forall c,
+  idx_sound (stk c) -> idx_unique (stk c) -> cons_inj (stk c) -> last_bonded (stk c) -> tokens_nonneg (stk c) ->
+  match apply_valset_updates c with
+  | EBHalt e => e = 4
+  | EBOk _ upd => List.NoDup (map fst upd) /\ (forall k p, In (k, p) upd -> 0 <= p)
+  end.
+Proof. exact apply_valset_updates_safe. Qed.
 
 (* the last bonded validator can be removed neither by the admin nor by itself: a successful removal leaves at
    least one other validator that is bonded, not jailed and has voting power *)
